@@ -28,6 +28,50 @@ def _is_ws_free_chars(chars):
     return chars is not None
 
 
+def _structural_rstrip(it, s, chars):
+    """rstrip of a concatenation that ends in string literals, where the opaque pieces next to the end were declared free of every
+    character of `chars` by the contract (it.sepfree[c]): exact, no string theory needed.  None when the shape does not allow it."""
+    frees = [getattr(it, "sepfree", {}).get(c) for c in chars]
+    if any(f is None for f in frees):
+        return None
+    t = z3.simplify(s.t)
+
+    def flat(x):
+        if x.decl().kind() == z3.Z3_OP_SEQ_CONCAT:
+            for i in range(x.num_args()):
+                yield from flat(x.arg(i))
+        else:
+            yield x
+    parts = list(flat(t))
+    # strip the literal tail
+    while parts and z3.is_string_value(parts[-1]):
+        lit = parts[-1].as_string().rstrip(chars)
+        if lit:
+            parts[-1] = z3.StringVal(lit)
+            break
+        parts.pop()
+    else:
+        if not parts:
+            return ""
+    if z3.is_string_value(parts[-1]):
+        pass   # ends in a literal that does not end in a stripped character
+    else:
+        # ends in opaque pieces: each must be free of the stripped characters, and since any of them may be empty the first literal
+        # before them must not end in one either
+        j = len(parts) - 1
+        while j >= 0 and not z3.is_string_value(parts[j]):
+            if not all(any(parts[j].eq(f) for f in fr) for fr in frees):
+                return None
+            j -= 1
+        if j >= 0:
+            lit = parts[j].as_string()
+            if not lit or lit[-1] in chars:
+                return None
+    term = parts[0] if len(parts) == 1 else z3.Concat(*parts)
+    term = z3.simplify(term)
+    return term.as_string() if z3.is_string_value(term) else SStr(term)
+
+
 def strip(it, s, chars, left, right):
     """s.strip/lstrip/rstrip(chars): result r with s == l + r + t, l and t made only of
     `chars`, r not starting/ending with a char of `chars`."""
@@ -37,6 +81,10 @@ def strip(it, s, chars, left, right):
         raise OutOfSubset("strip with symbolic character set")
     if not isinstance(s, SStr):
         s = SStr(S(s))
+    if right and not left and chars:
+        st = _structural_rstrip(it, s, chars)
+        if st is not None:
+            return st
     cls = z3.Union(*[z3.Re(c) for c in chars]) if len(chars) > 1 else z3.Re(chars)
     # strip is a *function* of its argument: uninterpreted, with its defining facts per application
     tag = "".join(f"{ord(c):02x}" for c in chars) + ("l" if left else "") + ("r" if right else "")
